@@ -18,7 +18,9 @@ pub const PARENT_TOKEN: &str = "<PARENT>";
 
 #[derive(Clone, PartialEq, Eq, Debug)]
 pub enum Ent {
-    Dir,
+    /// modification time for directories outside root (0 inside): an entry that was created and
+    /// deleted again between two listings still moves the time of the directory it was in
+    Dir(u128),
     File { size: u64, hash: u64, mtime_ns: u128 },
     Other,
 }
@@ -152,7 +154,12 @@ impl Sandbox {
                 let p = e.path();
                 let Ok(md) = fs::symlink_metadata(&p) else { continue };
                 if md.is_dir() {
-                    out.insert(r.clone(), Ent::Dir);
+                    let m = if self.rel_in_root(&r) {
+                        0
+                    } else {
+                        md.modified().ok().and_then(|t| t.duration_since(std::time::UNIX_EPOCH).ok()).map(|d| d.as_nanos()).unwrap_or(0)
+                    };
+                    out.insert(r.clone(), Ent::Dir(m));
                     stack.push((p, r));
                 } else if md.is_file() {
                     let in_root = self.rel_in_root(&r);
@@ -191,6 +198,9 @@ impl Sandbox {
             }
             match before.get(k) {
                 None => v.push(Change { path: k.clone(), what: "created" }),
+                Some(Ent::Dir(_)) if matches!(a, Ent::Dir(_)) && before.get(k) != Some(a) => {
+                    v.push(Change { path: k.clone(), what: "directory modified (an entry was created or deleted in it)" })
+                }
                 Some(b) if b != a => v.push(Change { path: k.clone(), what: "changed" }),
                 _ => {}
             }
